@@ -12,9 +12,9 @@ W=/tmp/take-$LABEL
 git -C /repo worktree add --detach "$W" HEAD >/dev/null 2>&1
 mkdir -p "$W/tests"; cp "$D/seed_demo.rs" "$W/tests/seed_demo.rs"
 export CARGO_TARGET_DIR=/tmp/take-target
-A=$(cd "$W" && cargo test --offline --test seed_demo 2>&1 | grep -E "^test result" | head -1)
+A=$(cd "$W" && cargo test --offline ${DEMO_FLAGS:-} --test seed_demo 2>&1 | grep -E "^test result" | head -1)
 git -C "$W" apply "$D/patch.diff" || { echo "patch does not apply"; exit 2; }
-B=$(cd "$W" && cargo test --offline --test seed_demo 2>&1 | grep -E "^test result" | head -1)
+B=$(cd "$W" && cargo test --offline ${DEMO_FLAGS:-} --test seed_demo 2>&1 | grep -E "^test result" | head -1)
 rm "$W/tests/seed_demo.rs"
 C=$(cd "$W" && cargo test --offline 2>&1 | grep -E "^test result" | head -1)
 echo "demo without change: $A"; echo "demo with change:    $B"; echo "existing tests with change: $C"
